@@ -59,6 +59,7 @@ public:
     AnyCellmlElementPtr convertToShared(const AnyCellmlElementPtr &item);
 
     void listComponentIdsAndItems(const ComponentPtr &component, ItemList &idList);
+    static bool listsImportSource(const ItemList &idList, const std::string &id, const ImportSourcePtr &importSource);
     ItemList listIdsAndItems(const ModelPtr &model);
 
     void update();
@@ -159,6 +160,22 @@ inline bool equals(const std::weak_ptr<T> &t, const std::weak_ptr<U> &u)
     return !t.owner_before(u) && !u.owner_before(t);
 }
 
+/**
+ * Test whether @p importSource is already listed under @p id: one import
+ * source may be used by several imported components and units, it is one item.
+ */
+bool Annotator::AnnotatorImpl::listsImportSource(const ItemList &idList, const std::string &id, const ImportSourcePtr &importSource)
+{
+    auto range = idList.equal_range(id);
+    for (auto it = range.first; it != range.second; ++it) {
+        if ((it->second->type() == CellmlElementType::IMPORT)
+            && (std::any_cast<ImportSourceWeakPtr>(it->second->mPimpl->mItem).lock() == importSource)) {
+            return true;
+        }
+    }
+    return false;
+}
+
 void Annotator::AnnotatorImpl::listComponentIdsAndItems(const ComponentPtr &component, ItemList &idList)
 {
     std::string id = component->id();
@@ -171,7 +188,7 @@ void Annotator::AnnotatorImpl::listComponentIdsAndItems(const ComponentPtr &comp
     ImportSourcePtr importSource = component->importSource();
     if (importSource != nullptr) {
         id = importSource->id();
-        if (!id.empty()) {
+        if (!id.empty() && !listsImportSource(idList, id, importSource)) {
             auto entry = AnyCellmlElement::AnyCellmlElementImpl::create();
             entry->mPimpl->setImportSource(importSource);
             idList.insert(std::make_pair(id, convertToWeak(entry)));
@@ -321,7 +338,7 @@ ItemList Annotator::AnnotatorImpl::listIdsAndItems(const ModelPtr &model)
         if (units->isImport()) {
             ImportSourcePtr importSource = units->importSource();
             id = importSource->id();
-            if (!id.empty()) {
+            if (!id.empty() && !listsImportSource(idList, id, importSource)) {
                 auto entry = AnyCellmlElement::AnyCellmlElementImpl::create();
                 entry->mPimpl->setImportSource(importSource);
                 idList.insert(std::make_pair(id, convertToWeak(entry)));
